@@ -14,6 +14,7 @@ from typing import Generic
 from typing import Iterable
 from typing import List
 from typing import Mapping
+from typing import Optional
 from typing import Pattern
 from typing import Sequence
 from typing import TypeVar
@@ -288,7 +289,7 @@ class PrefixExpression(FilterExpression):
         super().__init__()
 
     def __str__(self) -> str:
-        return f"{self.operator}{self.right}"
+        return f"{self.operator}{_group(self.right, negated=True)}"
 
     def __eq__(self, other: object) -> bool:
         return (
@@ -336,7 +337,7 @@ class InfixExpression(FilterExpression):
     def __str__(self) -> str:
         if self.logical:
             return f"({self.left} {self.operator} {self.right})"
-        return f"{self.left} {self.operator} {self.right}"
+        return f"{_group(self.left)} {self.operator} {_group(self.right)}"
 
     def __eq__(self, other: object) -> bool:
         return (
@@ -375,6 +376,23 @@ class InfixExpression(FilterExpression):
         assert len(children) == 2  # noqa: PLR2004
         self.left = children[0]
         self.right = children[1]
+
+
+def _group(
+    expr: FilterExpression, text: Optional[str] = None, *, negated: bool = False
+) -> str:
+    """Return _expr_ as a string, parenthesized where it would otherwise regroup.
+
+    An operand of `!` needs parentheses if it is a comparison. An operand of a
+    comparison operator needs them if it is a comparison or a negation.
+    """
+    if text is None:
+        text = str(expr)
+    if (isinstance(expr, InfixExpression) and not expr.logical) or (
+        isinstance(expr, PrefixExpression) and not negated
+    ):
+        return f"({text})"
+    return text
 
 
 PRECEDENCE_LOWEST = 1
@@ -445,6 +463,12 @@ class BooleanExpression(FilterExpression):
 
         if isinstance(expression, PrefixExpression):
             operand = self._canonical_string(expression.right, PRECEDENCE_PREFIX)
+            if not (
+                isinstance(expression.right, InfixExpression)
+                and expression.right.logical
+            ):
+                # A logical operand has been parenthesized above.
+                operand = _group(expression.right, operand, negated=True)
             expr = f"!{operand}"
             return f"({expr})" if parent_precedence > PRECEDENCE_PREFIX else expr
 
